@@ -16,6 +16,7 @@ PROFILES["C06"] = dict(notw=[(0, 1)], ops=1, edge_types=False, leave_w=0, ctl_w=
                        clock_w=0)
 T = 1500
 IDS = [0, 0, 0, 10, 11, 12, 1, 99, 100, 101, 200, -1, 32767, 4, 5, 4]
+LONG_NAMES = [b"n" * 31 + b"x", b"n" * 31 + b"y"]
 NAMES = [b"", b"", b"shared", b"shared", b"alpha", b"beta", b"message_manager", b" shared", b"alpha ", b" ", b"a b"]
 
 
@@ -99,6 +100,11 @@ class IdentityRun(PubSubRun):
         ch = self.ch
         via = ch.weighted("id.via", [(4, "client"), (3, "context"), (2, "raw_v2v1"), (2, "raw_v1"), (1, "raw_v2")])
         o = self.draw_opts()
+        if via in ("raw_v2v1", "raw_v2") and ch.flag("id.longname", 1, 5):
+            # names that fill the whole 32-byte field (no terminator on the wire) and differ in the last byte only;
+            # a validated Client cannot send these, a raw CONNECT_V2 can
+            o["name"] = ch.choose("id.ln", LONG_NAMES)
+            self.res.probes["full_length_name"] += 1
         idx = len(self.parts)
         att = dict(via=via, opts=o, idx=idx, outcome=None)
         if via in ("client", "context"):
